@@ -64,11 +64,29 @@ def main():
         rows.append({'id': meta['id'], 'kind': 'seeded by an independent sub-agent', 'patch': d + 'patch.diff', 'checks': [own] + extra,
                      'needs': meta.get('needs'), 'summary': meta.get('summary')})
     out = []
+    only = [c for c in os.environ.get('KM_ONLY', '').split(',') if c]
+    old = {}
+    if only and os.path.exists('/verif/selftest/kill_matrix.json'):
+        old = {r['id']: r for r in json.load(open('/verif/selftest/kill_matrix.json'))['rows']}
     for r in rows:
+        if only:
+            # partial re-run: only the listed checks, the other results are kept from the last full run
+            prev = old.get(r['id'], {}).get('results', {})
+            todo = [c for c in r['checks'] if c in only or c not in prev]
+            r['results'] = dict(prev)
+            if todo:
+                r['results'].update(run_one(r['patch'], todo))
+            r['results'] = {c: r['results'][c] for c in r['checks'] if c in r['results']}
+            print(r['id'], {c: v['verdict'] for c, v in r['results'].items()}, '(re-run: %s)' % ','.join(todo), flush=True)
+            out.append(r)
+            json.dump({'tier': tier, 'rows': out}, open('/verif/selftest/kill_matrix.json.part', 'w'), indent=1)
+            continue
         r['results'] = run_one(r['patch'], r['checks'])
         print(r['id'], {c: v['verdict'] for c, v in r['results'].items()}, flush=True)
         out.append(r)
         json.dump({'tier': tier, 'rows': out}, open('/verif/selftest/kill_matrix.json', 'w'), indent=1)
+    if only:
+        os.replace('/verif/selftest/kill_matrix.json.part', '/verif/selftest/kill_matrix.json')
     with open('/verif/selftest/kill_matrix.md', 'w') as f:
         f.write(f'# Kill matrix ({tier} tier)\n\n| change | kind | checks run -> verdict |\n|---|---|---|\n')
         for r in out:
